@@ -320,9 +320,21 @@ Proof.
   congruence.
 Qed.
 
+Lemma no_adapter_from_adapted : forall keys lo op k, no_adapter_from keys lo op = true -> lo <= k -> adapted_at keys op k = false.
+Proof.
+  intros keys lo op k H Hk. unfold no_adapter_from in H. apply negb_true_iff in H.
+  unfold adapted_at. apply not_true_iff_false. intros Hx. apply existsb_exists in Hx as ([[[d o] v] up] & Hin & E).
+  apply andb_true_iff in E as [E Eup]. apply andb_true_iff in E as [E Ev]. apply andb_true_iff in E as [Ed Eo].
+  apply Z.eqb_eq in Ev. subst v.
+  assert (C : existsb (fun key => let '(d, o, v, up) := key in String.eqb d "" && String.eqb o op && (lo <=? v) && up) keys = true).
+  { apply existsb_exists. exists (d, o, k, up). split; [exact Hin|]. rewrite Ed, Eo, Eup.
+    assert (L : (lo <=? k) = true) by (apply Z.leb_le; lia). now rewrite L. }
+  congruence.
+Qed.
+
 (* an operator without any adapter: valid at s => valid at t, provided no listed exception lies in (s, t] *)
 Theorem table_valid_transfer : forall keys ex tbl op s t x,
-  table_okb keys ex tbl = true -> no_adapter keys op = true -> clear_of ex op s t = true -> s <= t ->
+  table_okb keys ex tbl = true -> no_adapter_from keys s op = true -> clear_of ex op s t = true -> s <= t ->
   valid_at tbl op s x = true -> (exists sc, hist_of tbl op = Some sc /\ sch_at sc t <> None) ->
   valid_at tbl op t x = true.
 Proof.
@@ -332,7 +344,7 @@ Proof.
   unfold table_okb in Htbl. rewrite forallb_forall in Htbl.
   specialize (Htbl _ (hist_of_In _ _ _ Hh)). cbn [fst snd] in Htbl.
   eapply chain_valid; [exact Htbl|exact Hst| |exact Ea|exact Eb|exact Hv].
-  intros k Hk. cbv beta. cbn [fst]. rewrite (no_adapter_adapted keys op k Hna). cbn. eapply clear_of_excepted; eauto.
+  intros k Hk. cbv beta. cbn [fst]. rewrite (no_adapter_from_adapted keys s op k Hna) by lia. cbn. eapply clear_of_excepted; eauto.
 Qed.
 
 (* ---------------------------------------------------------------- the conversion loop only re-stamps quiet nodes *)
@@ -366,66 +378,98 @@ Proof.
   cbn in H. injection H as Hm Hms. cbn [forallb]. now rewrite (quietb_strip q m' m Hm), (IH ms' Hms).
 Qed.
 
+Lemma vergeb_unfold : forall lo n, vergeb lo n =
+  negb (n_dflt n) || ((match n_ver n with Some x => lo <=? x | None => true end) && forallb (vergeb lo) (n_subs n)).
+Proof. intros lo []; reflexivity. Qed.
+
+Lemma at_version_vergeb : forall s n, at_version s n = true -> vergeb s n = true.
+Proof.
+  intros s. fix G 1. intros [o d v r a i sh sb] H. cbn [at_version vergeb] in *.
+  destruct d; cbn in *; [|reflexivity]. apply andb_true_iff in H as [Hv Hs]. apply andb_true_iff. split.
+  - destruct v as [x|]; [|reflexivity]. cbn in Hv. apply Z.eqb_eq in Hv. subst. apply Z.leb_refl.
+  - clear Hv. induction sb as [|m ms IH]; [reflexivity|]. cbn [forallb] in *. apply andb_true_iff in Hs as [Hm Hms].
+    now rewrite (G m Hm), (IH Hms).
+Qed.
+
 Section Quiet.
   Variable adapt : adapter.
   Variable q : string -> bool.
-  Hypothesis q_quiet : forall op, q op = true -> forall k n, adapt op k n = ANone.
+  Variable lo : Z.
+  (* q: no adapter answers for this op at any from_version >= lo *)
+  Hypothesis q_quiet : forall op, q op = true -> forall k n, lo <= k -> adapt op k n = ANone.
   Variable t : Z.
   Variable dv : option Z.
+  Hypothesis dv_ok : match dv with Some v => lo <= v | None => True end.
 
   (* whatever the outcome (finished, aborted, out of fuel) the node list left behind is the input re-stamped *)
   Definition PQ (f : nat) : Prop := forall todo,
-    forallb (quietb q) todo = true -> map strip (gout (conv adapt t dv f todo)) = map strip todo.
+    forallb (quietb q) todo = true -> forallb (vergeb lo) todo = true ->
+    map strip (gout (conv adapt t dv f todo)) = map strip todo /\ forallb (vergeb lo) (gout (conv adapt t dv f todo)) = true.
   Definition QQ (f : nat) : Prop := forall n k cnt log,
-    n_dflt n = true -> quietb q n = true ->
+    n_dflt n = true -> quietb q n = true -> vergeb lo n = true -> lo <= k ->
     match steps adapt t dv f n k cnt log with
-    | SKept n' _ | SAbortKept _ n' _ => strip n' = strip n
+    | SKept n' _ | SAbortKept _ n' _ => strip n' = strip n /\ vergeb lo n' = true
     | SRepl _ _ | SAbortRepl _ _ _ => False
     end.
 
   Lemma quiet_main : forall f, PQ f /\ QQ f.
   Proof.
     induction f as [|f [IHP IHQ]].
-    { split; [intros todo _; reflexivity|intros n k cnt log _ _; reflexivity]. }
+    { split; [intros todo _ Hv; split; [reflexivity|exact Hv]|intros n k cnt log _ _ Hv _; split; [reflexivity|exact Hv]]. }
     assert (HQ : QQ (S f)).
-    { intros n k cnt log Hd Hq. rewrite steps_S. destruct cnt as [|c]; [reflexivity|].
+    { intros n k cnt log Hd Hq Hv Hk. rewrite steps_S. destruct cnt as [|c]; [split; [reflexivity|exact Hv]|].
       assert (Hq' := Hq). rewrite quietb_unfold, Hd in Hq'. cbn in Hq'. apply andb_true_iff in Hq' as [Hop Hsub].
-      rewrite (q_quiet _ Hop).
-      pose proof (IHP _ Hsub) as Hs.
-      assert (Hq2 : forall sb v, map strip sb = map strip (n_subs n) -> quietb q (set_ver (set_subs n sb) v) = true).
-      { intros sb v E. rewrite quietb_unfold, set_ver_op, set_subs_op, set_ver_subs, set_subs_subs, Hop, orb_true_r. cbn.
-        now rewrite (quietb_strip_list q _ _ E). }
-      destruct (conv adapt t dv f (n_subs n)) as [sb l|e sb l] eqn:Ec; cbn [gout] in Hs.
+      assert (Hv' := Hv). rewrite vergeb_unfold, Hd in Hv'. cbn in Hv'. apply andb_true_iff in Hv' as [Hvn Hvsub].
+      rewrite (q_quiet _ Hop k n Hk).
+      destruct (IHP _ Hsub Hvsub) as [Hs Hvs].
+      assert (Hq2 : forall sb, map strip sb = map strip (n_subs n) -> forallb (quietb q) sb = true).
+      { intros sb E. now rewrite (quietb_strip_list q _ _ E). }
+      assert (Lk : (lo <=? k + 1) = true) by (apply Z.leb_le; lia).
+      destruct (conv adapt t dv f (n_subs n)) as [sb l|e sb l] eqn:Ec; cbn [gout] in Hs, Hvs.
       - specialize (IHQ (set_ver (set_subs n sb) (k + 1)) (k + 1) c (log ++ l)%list).
-        rewrite set_ver_dflt, set_subs_dflt in IHQ. specialize (IHQ Hd (Hq2 sb (k + 1) Hs)).
+        rewrite set_ver_dflt, set_subs_dflt in IHQ.
+        assert (A : quietb q (set_ver (set_subs n sb) (k + 1)) = true).
+        { rewrite quietb_unfold, set_ver_op, set_subs_op, set_ver_subs, set_subs_subs, Hop, orb_true_r. cbn. now apply Hq2. }
+        assert (B : vergeb lo (set_ver (set_subs n sb) (k + 1)) = true).
+        { rewrite vergeb_unfold, set_ver_dflt, set_subs_dflt, Hd, set_ver_ver, set_ver_subs, set_subs_subs. cbn. now rewrite Lk, Hvs. }
+        specialize (IHQ Hd A B ltac:(lia)).
         destruct (steps adapt t dv f (set_ver (set_subs n sb) (k + 1)) (k + 1) c (log ++ l)%list); auto;
-          rewrite IHQ, strip_set_ver; now apply strip_set_subs.
-      - destruct (is_vce e); [|now apply strip_set_subs].
+          destruct IHQ as [IHQ1 IHQ2]; (split; [|exact IHQ2]); rewrite IHQ1, strip_set_ver; now apply strip_set_subs.
+      - assert (A : quietb q (set_subs n sb) = true).
+        { rewrite quietb_unfold, set_subs_op, set_subs_subs, Hop, orb_true_r. cbn. now apply Hq2. }
+        assert (B : vergeb lo (set_subs n sb) = true).
+        { rewrite vergeb_unfold, set_subs_dflt, Hd, set_subs_ver, set_subs_subs. cbn. now rewrite Hvn, Hvs. }
+        destruct (is_vce e); [|split; [now apply strip_set_subs|exact B]].
         specialize (IHQ (set_subs n sb) (k + 1) c (log ++ l ++ [n_op n])%list).
-        rewrite set_subs_dflt in IHQ.
-        assert (Hq3 : quietb q (set_subs n sb) = true).
-        { rewrite quietb_unfold, set_subs_op, set_subs_subs, Hop, orb_true_r. cbn. now rewrite (quietb_strip_list q _ _ Hs). }
-        specialize (IHQ Hd Hq3).
+        rewrite set_subs_dflt in IHQ. specialize (IHQ Hd A B ltac:(lia)).
         destruct (steps adapt t dv f (set_subs n sb) (k + 1) c (log ++ l ++ [n_op n])%list); auto;
-          rewrite IHQ; now apply strip_set_subs. }
+          destruct IHQ as [IHQ1 IHQ2]; (split; [|exact IHQ2]); rewrite IHQ1; now apply strip_set_subs. }
     split; [|exact HQ].
-    intros todo Hq. rewrite conv_S.
-    destruct todo as [|n rest]; [reflexivity|].
-    cbn [forallb] in Hq. apply andb_true_iff in Hq as [Hqn Hqr].
+    intros todo Hq Hv. rewrite conv_S.
+    destruct todo as [|n rest]; [split; reflexivity|].
+    cbn [forallb] in Hq, Hv. apply andb_true_iff in Hq as [Hqn Hqr]. apply andb_true_iff in Hv as [Hvn Hvr].
+    destruct (IHP rest Hqr Hvr) as [Hr1 Hr2].
+    assert (Same : map strip (n :: rest) = map strip (n :: rest) /\ forallb (vergeb lo) (n :: rest) = true).
+    { split; [reflexivity|]. cbn [forallb]. now rewrite Hvn, Hvr. }
     destruct (negb (n_dflt n)) eqn:Ed.
-    - rewrite gout_cons. cbn. f_equal. now apply IHP.
+    - rewrite gout_cons. cbn [map forallb]. rewrite Hr1, Hr2, Hvn. auto.
     - apply negb_false_iff in Ed.
-      destruct (match n_ver n with Some v => Some v | None => dv end) as [v|]; [|reflexivity].
-      destruct (n_ref n); [reflexivity|]. destruct (t <? v); [reflexivity|].
-      pose proof (IHQ n v (Z.to_nat (t - v)) [] Ed Hqn) as Hn.
-      destruct (steps adapt t dv f n v (Z.to_nat (t - v)) []) as [n' l1|news l1|? n' ?|? ? ?]; try contradiction.
-      + rewrite gout_cons. cbn. rewrite Hn. f_equal. now apply IHP.
-      + cbn. now rewrite Hn.
+      assert (Hv' := Hvn). rewrite vergeb_unfold, Ed in Hv'. cbn in Hv'. apply andb_true_iff in Hv' as [Hvv _].
+      destruct (match n_ver n with Some v => Some v | None => dv end) as [v|] eqn:Ev; [|exact Same].
+      assert (Hlo : lo <= v).
+      { destruct (n_ver n) as [x|]; [inversion Ev; subst x; now apply Z.leb_le|]. pose proof dv_ok as D. rewrite Ev in D. exact D. }
+      destruct (n_ref n); [exact Same|]. destruct (t <? v); [exact Same|].
+      pose proof (IHQ n v (Z.to_nat (t - v)) [] Ed Hqn Hvn Hlo) as Hn.
+      destruct (steps adapt t dv f n v (Z.to_nat (t - v)) []) as [n' l1|news l1|? n' ?|? ? ?]; try contradiction;
+        destruct Hn as [Hn1 Hn2].
+      + rewrite gout_cons. cbn [map forallb]. now rewrite Hn1, Hn2, Hr1, Hr2.
+      + cbn [gout map forallb]. now rewrite Hn1, Hn2, Hvr.
   Qed.
 
   Lemma conv_quiet_strip : forall f todo out l,
-    forallb (quietb q) todo = true -> conv adapt t dv f todo = GFin out l -> map strip out = map strip todo.
-  Proof. intros f todo out l Hq H. pose proof (proj1 (quiet_main f) todo Hq) as E. now rewrite H in E. Qed.
+    forallb (quietb q) todo = true -> forallb (vergeb lo) todo = true ->
+    conv adapt t dv f todo = GFin out l -> map strip out = map strip todo.
+  Proof. intros f todo out l Hq Hv H. destruct (proj1 (quiet_main f) todo Hq Hv) as [E _]. now rewrite H in E. Qed.
 End Quiet.
 
 (* the schema's view of a node does not look at versions or at the contents of subgraphs *)
